@@ -14,8 +14,8 @@ H == INSTANCE Hdlc
 
 Flatten(pkts) == F!Concat([i \in 1 .. Len(pkts) |-> <<-1>> \o pkts[i]])
 Apply(kind, p, ins) ==
-  CASE kind \in {"src_u8", "src_big", "src_f"} -> << p.data >>
-    [] kind = "fftfiltf" -> F!FftFiltFn(p, ins)
+  CASE kind \in {"src_u8", "src_big", "src_f", "src_c"} -> << p.data >>
+    [] kind \in {"fftfiltf", "fftfiltc"} -> F!FftFiltFn(p, ins)
     [] kind = "firf" -> F!FirFn(p, ins)
     [] kind = "addconst" -> F!Lin([coef |-> <<<<1>>>>, const |-> <<p.val>>], ins)
     [] kind = "add" -> F!Lin([coef |-> <<<<1, 1>>>>, const |-> <<0>>], ins)
